@@ -38,6 +38,7 @@ def run(ctx):
     r8_no_fitted_state(ctx)
     r9_degenerate_shortcuts(ctx)
     r10_apply_guards(ctx)
+    write_through(ctx, "C11.R11")
 
 
 def r1_window(ctx):
@@ -419,7 +420,62 @@ def _chain(lp):
     return out
 
 
+def write_through(ctx, rule):
+    """Mutable dense views over sparse storage (SparseDense: what Densify hands to Scale/Impute and to the learners' encoders):
+    a write is stored for every value, and nothing the read methods derive from the storage survives a write."""
+    from ..cfg import CFG, forward
+    from ..util import node_ast_for_effects
+    ctx.rule(rule, "write-through of mutable rows: on every non-raising path __setitem__ stores the given value under the (normalised) key for every value "
+                   "(no value-dependent skip), the read methods store nothing on the row, or whatever they memoise is dropped on every path of __setitem__")
+    RW = "coba/pipes/rows.py"
+    n = 0
+    for c in ctx.model.classes:
+        if c.rel != RW or "__setitem__" not in c.methods:
+            continue
+        fn = c.methods["__setitem__"]
+        ctx.touch(RW, f"{c.name}.__setitem__")
+        params = [a.arg for a in fn.args.args]
+        if len(params) < 3:
+            continue
+        KEY, VAL = params[1], params[2]
+        g = CFG(fn)
+
+        def stores_value(node):
+            a = node_ast_for_effects(node)
+            if not isinstance(a, ast.Assign):
+                return False
+            return isinstance(a.value, ast.Name) and a.value.id == VAL and any(
+                isinstance(t, ast.Subscript) and is_self_attr(t.value) and isinstance(t.slice, ast.Name) and t.slice.id == KEY for t in a.targets)
+        IN = forward(g, False, lambda node, st, label: None if label in ("exc", "abandon") and False else (True if stores_value(node) else st), lambda a, b: a and b)
+        n += 1
+        reach = g.exit_return in IN
+        ctx.ob(rule, RW, f"{c.name}.__setitem__", fn, f"every normal return of {c.name}.__setitem__ has stored `{VAL}` under `{KEY}` (must-pass, whatever the value)",
+               reach and bool(IN[g.exit_return]), stmt=f"{c.name}.__setitem__ stores on every path")
+        # memoised derived state
+        memo = {}
+        for name, m in c.methods.items():
+            if name in ("__init__", "__setitem__", "__setstate__", "__new__"):
+                continue
+            for st in ast.walk(m):
+                tg = st.targets if isinstance(st, ast.Assign) else [st.target] if isinstance(st, (ast.AugAssign, ast.AnnAssign)) else []
+                for t in tg:
+                    for tt in (t.elts if isinstance(t, (ast.Tuple, ast.List)) else [t]):
+                        if is_self_attr(tt):
+                            memo.setdefault(tt.attr, (name, st))
+        for attr, (name, st) in sorted(memo.items()):
+            n += 1
+
+            def resets(node, attr=attr):
+                a = node_ast_for_effects(node)
+                return isinstance(a, (ast.Assign, ast.Delete)) and any(is_self_attr(t, attr) for t in (a.targets if isinstance(a, (ast.Assign, ast.Delete)) else []))
+            IN2 = forward(g, False, lambda node, st_, label, resets=resets: True if resets(node) else st_, lambda a, b: a and b)
+            ok = g.exit_return in IN2 and bool(IN2[g.exit_return])
+            ctx.ob(rule, RW, f"{c.name}.{name}", st, f"self.{attr} (memoised by {name}) is dropped on every path of __setitem__", ok)
+    ctx.floor(rule, "mutable row classes examined", n, 1)
+
+
 CONTROLS = [
+    ("SparseDense keeps zeros implicit", "coba/pipes/rows.py", M.replace_stmt("SparseDense.__setitem__", M.text_has("self._values[key] = value"), "if value != 0: self._values[key] = value"), "C11.R11"),
     ("dense apply does not skip None", EF, M.replace_stmt("Scale.filter", M.text_has("if context[i] is not None: context[i] = (context[i] + shift) * scale"), "context[i] = (context[i] + shift) * scale"), "C11.R10"),
     ("sparse impute without statistic guard", EF, M.replace_expr("Impute.filter", "v is None and k in imputations", "v is None", nth=1), "C11.R10"),
     ("fit keeps NaN", EF, M.replace_expr("Scale._get_shift_and_scale", "[v for v in values if v is not None and v == v]", "[v for v in values if v is not None]"), "C11.R6"),
